@@ -964,6 +964,12 @@ def file_case(rng, i):
         for e in b['ev'].values():
             if e['k'] == 'arb':
                 e['w'] = list(e['w']) + ['0', '0']
+        # the block may have become longer: a gradient that ends away from zero must still end at the block edge
+        # (otherwise the sequence is not a continuous waveform and the prediction is not defined by the property)
+        dur = max([b['delay']] + [ev_dur(e) for e in b['ev'].values()])
+        for e in b['ev'].values():
+            if e['k'] == 'ext' and Fraction(e['a'][-1]) != 0:
+                e['t'][-1] = dur
     return c
 
 
